@@ -409,7 +409,13 @@ func runC15(t *testing.T, tape *verifsim.Tape, prop, tier string, keepLog bool) 
 		cw.nClients = 3 + d("clients", maxClients)
 		cw.nOps = 2 + d("ops", maxOps)
 		w.addFamily("ga", 1, false, apiTmplToolsA, "alpha", "alpha2", "team/alpha:v2")
-		w.addFamily("gb", 2, false, apiTmplPlain, "beta", "beta2", "Beta:Mixed")
+		// one run in two the second family has no TEMPLATE layer: its models share the
+		// package-level default template (and whatever that caches on first use)
+		tmplB := apiTmplPlain
+		if d("gb-default-template", 2) == 0 {
+			tmplB = ""
+		}
+		w.addFamily("gb", 2, false, tmplB, "beta", "beta2", "Beta:Mixed")
 		if d("embed-fam", 3) != 0 {
 			w.addFamily("em", 1, true, "", "embed", "embed2")
 		}
@@ -564,7 +570,7 @@ func TestVerifAPIRace(t *testing.T) {
 			// stores that later executions only read. A replay in a fresh process must see
 			// what a worker that has been running for a while saw, so it warms up first by
 			// executing the same tape once without looking at the result.
-			if verifsim.RaceBuild && !c15Warm && tape.Replaying() {
+			if verifsim.RaceBuild && !c15Warm && tape.Replaying() && !verifsim.FreshReplay {
 				c15Warm = true
 				runC15(t, verifsim.ReplayTape(tape.Vals), prop, tier, false)
 			}
